@@ -173,6 +173,10 @@ func checkC17(c *Ctx) {
 	lockBalance(c, func(cl string) bool { return cl == "service.service.wmu" }, "write-mutex")
 	// what goes out has the length Len() says and the bytes the encoder counted (T1 length tables, B14)
 	c.codecLengthTables()
+	// a packet that wraps around the end of the outgoing ring is encoded into a scratch buffer that holds it
+	c.scratchHoldsTheMessage()
+	// nothing but the sender goroutine writes to the socket once it runs
+	c.connackBeforeStart()
 }
 
 // writerCriticalSpan: L7 in the ring writer.
